@@ -62,6 +62,11 @@ def check(ctx, rep):
     LOCKF[0] = roles.proto(ctx).lock
     rep.rule("R-MUSTCATCH", "no path of a worker loop, a library done-callback or cancel() ends with an exception that originated in a call of user-supplied code")
     rep.rule("R-TOLERANT", "no path of a worker loop, a library done-callback or cancel() ends with an InvalidStateError from a state transition of a future that may already be cancelled")
+    rep.rule("R-PROBE", "library code that handles a future it was given never uses hasattr/getattr on it with a name outside the Future API: on a failed proxy future the lookup raises the callable's own exception in the middle of a worker loop or callback, outside every handler")
+    from .c17 import probe_rule
+    probe_rule(ctx, rep, "R-PROBE")
+    rep.rule("R-RECORD-EQ", "where a job record is looked up in a container by equality (remove / index / count / in), the record's first field is the job's own library future: tuple comparison of two different jobs is decided there, by identity, and never reaches the submitted callable or its arguments (whose __eq__ is user code that may raise)")
+    record_eq_rule(ctx, rep, "R-RECORD-EQ")
     rep.rule("R-HANDLER", "every handler that is the innermost one around a call of user code catches Exception")
     rs = [(m, ci, why) for (m, ci, why) in all_roots(ctx) if why in ("worker thread", "done-callback")]
     fut = prog.cls("_Future")
@@ -188,3 +193,59 @@ def check(ctx, rep):
     # the poll worker counts its calls and errors inside the code that handles a raising poll function (shared with C20)
     from .c20 import labelnames_rule
     labelnames_rule(ctx, rep, "R-MUSTCATCH", ("POLL_ERROR", "POLL_TOTAL", "POLL_TIME"))
+
+
+def record_eq_rule(ctx, rep, rule):
+    """equality-based container operations on namedtuple job records: list.remove(job) / deque.remove(job) compare
+    records field by field until one differs.  That is safe only while the first field is a library object with
+    identity equality that differs between any two jobs (the job's future)."""
+    import ast
+    from ..model import mangle
+    prog, types = ctx.prog, ctx.types
+    n = 0
+    for fi in sorted(prog.functions.values(), key=lambda f: f.key):
+        if fi.cls is None or fi.node is None:
+            continue
+        owners = [c for c in fi.cls.mro() if isinstance(c, ClassInfo)]
+        # subclasses share the fields of their bases
+        def elems(field):
+            out = set()
+            for key, ets in types.elem_types.items():
+                if key[1] == mangle(fi.cls.name, field) and any(key[0] == c.key for c in owners):
+                    out |= ets
+            return out
+        sites = []
+        for node in ast.walk(fi.node):
+            if isinstance(node, ast.Call) and isinstance(node.func, ast.Attribute) and node.func.attr in ("remove", "index", "count") and node.args:
+                sites.append((node, node.func.value, ".%s()" % node.func.attr))
+            elif isinstance(node, ast.Compare) and len(node.ops) == 1 and isinstance(node.ops[0], (ast.In, ast.NotIn)):
+                sites.append((node, node.comparators[0], "`in`"))
+        for node, cont, what in sites:
+            if not (isinstance(cont, ast.Attribute) and isinstance(cont.value, ast.Name) and cont.value.id == "self"):
+                continue
+            for et in sorted(elems(cont.attr)):
+                rc = types.cls_of(et)
+                if rc is None:
+                    continue
+                n += 1
+                if rc.record_fields is None:
+                    # an ordinary class: equality is identity unless the class says otherwise
+                    eqs = [k.name for k in rc.mro() if isinstance(k, ClassInfo) and "__eq__" in k.methods]
+                    rep.ob(rule, "%s: %s on self.%s compares %s objects by identity" % (fi.qualname, what, cont.attr, rc.name), not eqs, "%s on a container of %s objects uses the __eq__ defined by %s: it has to be shown that it never compares submitted callables / arguments" % (what, rc.name, eqs), where_of(fi, node))
+                    continue
+                f0 = rc.record_fields[0] if rc.record_fields else None
+                fts = types.field_types.get((rc.key, f0), set()) if f0 else set()
+                ok = bool(fts)
+                why = ""
+                for t in sorted(fts):
+                    c = types.cls_of(t) if t.startswith("C:") else None
+                    if c is None:
+                        ok, why = False, "its first field `%s` can hold %s" % (f0, t)
+                        break
+                    if any("__eq__" in k.methods for k in c.mro() if isinstance(k, ClassInfo)):
+                        ok, why = False, "its first field `%s` holds a %s, which defines __eq__" % (f0, c.name)
+                        break
+                if not fts:
+                    why = "its first field `%s` is not a library object (nothing the library constructs is ever stored there)" % f0
+                rep.ob(rule, "%s: %s on self.%s compares %s records by their future first" % (fi.qualname, what, cont.attr, rc.name), ok, "%s on a container of %s records compares them field by field, and %s: comparing two different jobs calls __eq__ of submitted callables / arguments -- user code that may raise out of cancel() or out of a worker thread" % (what, rc.name, why), where_of(fi, node))
+    rep.count("equality-based look-ups of job records", n, 1)
